@@ -778,3 +778,255 @@ var _ = kit.Register(kit.Prop[ListCase]{
 	Gen:  genListCase, Run: runListCase,
 	Quick: 500, Thorough: 10000, Chunk: 250, MinNonTrivialPct: 30,
 })
+
+// ---------------------------------------------------------------------------------
+// leaf-to-subtrie references, as the state uses the node database: an account trie
+// whose leaves name storage tries; Commit's leaf callback references each sub-trie
+// root from the leaf's parent node, so garbage collection and flushing follow the link.
+
+type KV struct {
+	K []byte `json:"k"`
+	V []byte `json:"v"`
+}
+
+type MainEntry struct {
+	K    []byte `json:"k"`
+	Link int    `json:"link"` // >= 0: value is the root of sub-trie Link%len(subs); -1: plain value V
+	V    []byte `json:"v,omitempty"`
+}
+
+type LinkCase struct {
+	Subs  [][]KV        `json:"subs"`
+	Mains [][]MainEntry `json:"mains"` // successive versions of the main trie (each committed and referenced)
+	Sched []Op          `json:"sched"` // deref (N: which version), flush (N), cap
+}
+
+func genLinkCase(t *rapid.T) LinkCase {
+	var c LinkCase
+	ns := rapid.IntRange(1, 4).Draw(t, "nsubs")
+	for i := 0; i < ns; i++ {
+		var sub []KV
+		n := rapid.IntRange(1, 6).Draw(t, "nsub")
+		for j := 0; j < n; j++ {
+			v := genVal(t)
+			if len(v) == 0 {
+				v = []byte{7}
+			}
+			sub = append(sub, KV{K: genKey(t, false), V: v})
+		}
+		c.Subs = append(c.Subs, sub)
+	}
+	nm := rapid.IntRange(1, 3).Draw(t, "nmains")
+	for i := 0; i < nm; i++ {
+		var m []MainEntry
+		n := rapid.IntRange(1, 7).Draw(t, "nmain")
+		for j := 0; j < n; j++ {
+			// fixed-length keys: the leaf callback is only issued for leaves below short nodes and
+			// in branch slots 0-15, i.e. it assumes (like the state's hashed account keys) that no
+			// key is a prefix of another
+			k := genKey(t, false)
+			e := MainEntry{K: append(append([]byte{}, k...), 0, 0, 0)[:3], Link: -1}
+			if rapid.IntRange(0, 2).Draw(t, "islink") > 0 {
+				e.Link = rapid.IntRange(0, ns-1).Draw(t, "link")
+			} else {
+				e.V = genVal(t)
+				if len(e.V) == 0 {
+					e.V = []byte{9}
+				}
+			}
+			m = append(m, e)
+		}
+		c.Mains = append(c.Mains, m)
+	}
+	no := rapid.IntRange(0, 6).Draw(t, "nsched")
+	for i := 0; i < no; i++ {
+		c.Sched = append(c.Sched, Op{Kind: rapid.SampledFrom([]string{"deref", "deref", "flush", "cap", "reload"}).Draw(t, "skind"),
+			N: rapid.IntRange(0, 1<<12).Draw(t, "n")})
+	}
+	return c
+}
+
+func runLinkCase(c LinkCase) kit.Result {
+	disk := youdb.NewMemDatabase()
+	tdb := trie.NewDatabase(disk)
+	// sub tries: committed, not referenced from the meta root (like storage tries)
+	subRoot := make([]common.Hash, len(c.Subs))
+	subModel := make([]map[string][]byte, len(c.Subs))
+	for i, sub := range c.Subs {
+		tr, _ := trie.New(common.Hash{}, tdb)
+		subModel[i] = map[string][]byte{}
+		for _, kv := range sub {
+			tr.Update(kv.K, kv.V)
+			subModel[i][string(kv.K)] = kv.V
+		}
+		r, err := tr.Commit(nil)
+		if err != nil {
+			return kit.Fail("commit-error", "sub trie %d: %v", i, err)
+		}
+		if want := RefRoot(subModel[i]); !bytes.Equal(r[:], want) {
+			return kit.Fail("root-mismatch", "sub trie %d root %x, reference %x", i, r, want)
+		}
+		subRoot[i] = r
+	}
+	isSub := map[common.Hash]int{}
+	for i, r := range subRoot {
+		isSub[r] = i
+	}
+	// main versions, built on top of each other
+	type version struct {
+		root  common.Hash
+		model map[string][]byte
+		links map[int]bool
+		alive bool
+	}
+	var vers []*version
+	main, _ := trie.New(common.Hash{}, tdb)
+	cur := map[string][]byte{}
+	for vi, entries := range c.Mains {
+		for _, e := range entries {
+			v := e.V
+			if e.Link >= 0 {
+				v = subRoot[e.Link%len(subRoot)].Bytes()
+			}
+			main.Update(e.K, v)
+			cur[string(e.K)] = v
+		}
+		root, err := main.Commit(func(leaf []byte, parent common.Hash) error {
+			if len(leaf) == 32 {
+				if _, ok := isSub[common.BytesToHash(leaf)]; ok {
+					tdb.Reference(common.BytesToHash(leaf), parent)
+				}
+			}
+			return nil
+		})
+		if err != nil {
+			return kit.Fail("commit-error", "main version %d: %v", vi, err)
+		}
+		if want := RefRoot(cur); !bytes.Equal(root[:], want) {
+			return kit.Fail("root-mismatch", "main version %d root %x, reference %x", vi, root, want)
+		}
+		tdb.Reference(root, common.Hash{})
+		ver := &version{root: root, model: map[string][]byte{}, links: map[int]bool{}, alive: true}
+		for k, v := range cur {
+			ver.model[k] = v
+			if len(v) == 32 {
+				if i, ok := isSub[common.BytesToHash(v)]; ok {
+					ver.links[i] = true
+				}
+			}
+		}
+		vers = append(vers, ver)
+	}
+	refs := map[common.Hash]int{}
+	for _, v := range vers {
+		refs[v.root]++
+	}
+	flushed := map[common.Hash]bool{}
+	readAll := func(when string, root common.Hash, model map[string][]byte, what string) *kit.Result {
+		tr, err := trie.New(root, tdb)
+		if err != nil {
+			r := kit.Fail("link-lost", "%s: %s (root %x) cannot be opened: %v", when, what, root, err)
+			return &r
+		}
+		it := trie.NewIterator(tr.NodeIterator(nil))
+		n := 0
+		for it.Next() {
+			if want, ok := model[string(it.Key)]; !ok || !bytes.Equal(want, it.Value) {
+				r := kit.Fail("link-content", "%s: %s holds %x=%x, model %x", when, what, it.Key, it.Value, want)
+				return &r
+			}
+			n++
+		}
+		if it.Err != nil {
+			r := kit.Fail("link-lost", "%s: reading %s (root %x) failed: %v", when, what, root, it.Err)
+			return &r
+		}
+		if n != len(model) {
+			r := kit.Fail("link-content", "%s: %s holds %d pairs, model %d", when, what, n, len(model))
+			return &r
+		}
+		return nil
+	}
+	checkAlive := func(when string) *kit.Result {
+		for vi, v := range vers {
+			if !v.alive {
+				continue
+			}
+			if r := readAll(when, v.root, v.model, fmt.Sprintf("main version %d", vi)); r != nil {
+				return r
+			}
+			for i := range v.links {
+				if r := readAll(when, subRoot[i], subModel[i], fmt.Sprintf("sub trie %d linked from main version %d", i, vi)); r != nil {
+					return r
+				}
+			}
+		}
+		return nil
+	}
+	if r := checkAlive("after commits"); r != nil {
+		return *r
+	}
+	derefs, flushes := 0, 0
+	for i, op := range c.Sched {
+		when := fmt.Sprintf("sched %d (%s)", i, op.Kind)
+		v := vers[op.N%len(vers)]
+		switch op.Kind {
+		case "deref":
+			if !v.alive || flushed[v.root] {
+				continue
+			}
+			tdb.Dereference(v.root)
+			refs[v.root]--
+			derefs++
+			if refs[v.root] == 0 {
+				for _, w := range vers {
+					if w.root == v.root {
+						w.alive = false
+					}
+				}
+			}
+		case "flush":
+			if !v.alive {
+				continue
+			}
+			if err := tdb.Commit(v.root, false); err != nil {
+				return kit.Fail("dbcommit-error", "%s: %v", when, err)
+			}
+			flushed[v.root] = true
+			flushes++
+		case "cap":
+			if err := tdb.Cap(common.StorageSize(op.N % 2048)); err != nil {
+				return kit.Fail("cap-error", "%s: %v", when, err)
+			}
+		case "reload":
+			// a fresh node cache over the disk: only flushed versions survive
+			tdb = trie.NewDatabase(disk)
+			for _, w := range vers {
+				if !flushed[w.root] {
+					w.alive = false
+				}
+			}
+			refs = map[common.Hash]int{}
+			for _, w := range vers {
+				if w.alive {
+					refs[w.root] = 0 // on disk: nothing to dereference any more
+				}
+			}
+		}
+		if r := checkAlive(when); r != nil {
+			return *r
+		}
+	}
+	nl := 0
+	for _, v := range vers {
+		nl += len(v.links)
+	}
+	return kit.OK(nl > 0 && (derefs > 0 || flushes > 0), fmt.Sprintf("versions:%d", len(vers)))
+}
+
+var _ = kit.Register(kit.Prop[LinkCase]{
+	Name: "TrieLinks",
+	Rule: "1-4 committed sub-tries and 1-3 successive versions of a main trie whose leaves are plain values or roots of sub-tries; every version is committed with a leaf callback that references the linked sub-trie root from the leaf's parent node (as StateDB.Commit does for storage tries) and referenced from the meta root; then a generated schedule of dereference / flush-to-disk / cap / fresh node cache. After every step every version that is still referenced (or flushed), and every sub-trie it links, must be completely readable and equal to its model. Non-trivial = at least one link and one dereference or flush",
+	Gen:  genLinkCase, Run: runLinkCase,
+	Quick: 2500, Thorough: 60000, Chunk: 500, MinNonTrivialPct: 30,
+})
